@@ -48,11 +48,19 @@ Hosts == {
   <<"bad_dash_before_port", "docker-:5000", FALSE>>, <<"bad_underscore_before_port", "registry_:5000", FALSE>>,
   <<"bad_colon_before_port", "example::5000", FALSE>>, <<"bad_at_before_port", "example@:5000", FALSE>>,
   <<"bad_dotdot_before_port", "example..:5000", FALSE>> }
-Comps == {
+CoreComps == {
   <<"lower", "alpine", TRUE>>, <<"lower", "r2d2", TRUE>>,
   <<"sep", "my-repo_x.y", TRUE>>, <<"sep", "a__b--c", TRUE>>,
   <<"upper", "Alpine", FALSE>>, <<"empty", "", FALSE>>, <<"leading_sep", "-repo", FALSE>>,
   <<"trailing_sep", "repo_", FALSE>>, <<"triple_underscore", "a___b", FALSE>>, <<"bad_char", "re po", FALSE>> }
+\* words that have a meaning in another slot: only the exact first component "localhost" is a host,
+\* "library" is only ever added, never recognised
+WordComps == {
+  <<"lh_prefix", "localhostess", TRUE>>, <<"lh_prefix", "localhost2", TRUE>>, <<"lh_prefix", "localhost-dev", TRUE>>,
+  <<"lh_prefix", "localhost.x", TRUE>>, <<"lh_suffix", "mylocalhost", TRUE>>,
+  <<"localhost_word", "localhost", TRUE>>, <<"library_word", "library", TRUE>>,
+  <<"hub_word", "docker", TRUE>> }
+Comps == CoreComps \cup WordComps
 Tags == {
   <<"absent", "", TRUE>>,
   <<"len1", "a", TRUE>>, <<"len1", "_", TRUE>>, <<"normal", "v1.2-x_Y", TRUE>>, <<"numeric", "5000", TRUE>>,
@@ -127,16 +135,24 @@ Lex(set, ok) == {e \in set : e[3] = ok}
 NInvalid(x) == (IF Valid(Hosts, x.hc, x.h) THEN 0 ELSE 1) + (IF Valid(Tags, x.tc, x.t) THEN 0 ELSE 1)
                + (IF Valid(Digests, x.dc, x.d) THEN 0 ELSE 1)
                + Cardinality({i \in 1..Len(x.pcs) : ~Valid(Comps, x.pcc[i], x.pcs[i])})
-CompSeqs == [1..1 -> Comps] \cup {<<a, b>> : a \in Lex(Comps, TRUE), b \in Comps} \cup
-            {<<a, b>> : a \in Comps, b \in {<<"lower", "alpine", TRUE>>}} \cup
-            {<<a, b, c>> : a \in Lex(Comps, TRUE), b \in {<<"lower", "alpine", TRUE>>}, c \in Comps}
+Alp == <<"lower", "alpine", TRUE>>
+CompSeqs == [1..1 -> CoreComps] \cup {<<a, b>> : a \in Lex(CoreComps, TRUE), b \in CoreComps} \cup
+            {<<a, b>> : a \in CoreComps, b \in {Alp}} \cup
+            {<<a, b, c>> : a \in Lex(CoreComps, TRUE), b \in {Alp}, c \in CoreComps} \cup
+            \* the words in every position
+            {<<w>> : w \in WordComps} \cup {<<w, Alp>> : w \in WordComps} \cup {<<Alp, w>> : w \in WordComps} \cup
+            {<<w, Alp, Alp>> : w \in WordComps} \cup {<<Alp, Alp, w>> : w \in WordComps} \cup
+            {<<w, w>> : w \in WordComps}
 RegScenarios ==
   {x \in {[kind |-> "reg", sc |-> "none", scl |-> "", hc |-> h[1], h |-> h[2],
            pcc |-> [i \in 1..Len(p) |-> p[i][1]], pcs |-> [i \in 1..Len(p) |-> p[i][2]],
            tc |-> t[1], t |-> t[2], dc |-> d[1], d |-> d[2]] : h \in Hosts, p \in CompSeqs, t \in Tags, d \in Digests}
      : /\ NInvalid(x) <= 1
        \* the one ambiguity of the grammar: a first component that is a valid host token IS the host
-       /\ ~(x.hc = "absent" /\ Len(x.pcs) > 1 /\ x.pcc[1] = "upper")}
+       /\ ~(x.hc = "absent" /\ Len(x.pcs) > 1 /\ x.pcc[1] = "upper")
+       \* the same string as host class "localhost" / the host-only limit above; a dotted first component is a host
+       /\ ~(x.hc = "absent" /\ x.pcc[1] = "localhost_word")
+       /\ ~(x.hc = "absent" /\ x.pcs[1] = "localhost.x")}
 DirScenarios ==
   {x \in {[kind |-> "dir", sc |-> s[1], scl |-> s[2], hc |-> "absent", h |-> "", pcc |-> <<p[1]>>, pcs |-> <<p[2]>>,
            tc |-> t[1], t |-> t[2], dc |-> d[1], d |-> d[2]] : s \in Schemes \ {<<"none", "", TRUE>>}, p \in Paths, t \in Tags, d \in Digests}
